@@ -37,6 +37,21 @@ Theorem c05_empty_message_primary : forall cfg act st,
 Proof. exact infer_empty. Qed.
 Print Assumptions c05_empty_message_primary.
 
+(** The role decision does not depend on shard inference: whatever infer_shard /
+    infer_shard_on_write deliver for each statement (no key, any shard, an error) and whether
+    automatic_sharding_key is set or not, the router state after [infer] is the one of the
+    shard-free model — in particular a shard conflict BEFORE a write (SELECT .. id=5; SELECT ..
+    id=6; DELETE ..) cannot leave the message on a replica. *)
+Theorem c05_role_independent_of_shards : forall cfg act auto sho st shard ss,
+  fst (fst (infer_sh cfg act auto sho st shard ss)) = fst (infer_act cfg act st ss).
+Proof. exact infer_sh_role. Qed.
+Print Assumptions c05_role_independent_of_shards.
+
+Theorem c05_no_sharding_key_no_shard_effect : forall cfg act sho st shard ss,
+  infer_sh cfg act false sho st shard ss = (fst (infer_act cfg act st ss), shard, snd (infer_act cfg act st ss)).
+Proof. exact infer_sh_off. Qed.
+Print Assumptions c05_no_sharding_key_no_shard_effect.
+
 (** Plain reads only, no activity pin: Replica, or "any" when primary reads are enabled
     (pool setting or session override). *)
 Theorem c05_reads_not_pinned : forall cfg act st ss,
@@ -233,4 +248,18 @@ Proof. vm_compute. repeat split. Qed.
 Example c05_f23_delivered_ast_is_plain :
   let q := MkQuery [] [MkQuery [] [] BTable false] (BSelect false) false in
   plain_query q = true /\ role_after false [SQuery q] = Some Replica.
+Proof. vm_compute. repeat split. Qed.
+
+(** two reads on different shards, then a write: Primary, first shard kept, Err returned;
+    the assignment error of the write ("Sharding key cannot be updated") likewise *)
+Example c05_shard_conflict_before_write :
+  infer_sh (cfg_split false) quiet true (fun i => nth i [ShSome 0; ShSome 1; ShSome 2] ShNone) st_replica None
+           [SQuery sel; SQuery sel; SOther]
+  = ({| active_role := Some Primary; o_parser := None; o_preads := None |}, Some 0, true) /\
+  infer_sh (cfg_split false) quiet true (fun i => nth i [ShSome 2; ShErr] ShNone) st_replica (Some 1)
+           [SQuery sel; SOther; SQuery sel]
+  = ({| active_role := Some Primary; o_parser := None; o_preads := None |}, Some 2, true) /\
+  infer_sh (cfg_split false) quiet true (fun i => nth i [ShSome 1; ShNone; ShSome 1] ShNone) st_replica None
+           [SQuery sel; SQuery sel; SQuery sel]
+  = ({| active_role := Some Replica; o_parser := None; o_preads := None |}, Some 1, false).
 Proof. vm_compute. repeat split. Qed.
